@@ -24,7 +24,8 @@ EXPLANATION = (
     "except handlers. The decode-failure handler records the sender's failure and calls nothing that mutates the "
     "routing table or the data store."
 )
-TECHNIQUE = "static analysis: exception-escape (may-raise with typed taint, handler class hierarchy), reader/writer table agreement, who-may-call"
+EXACTNESS = "Second pass (DESIGN.md §10, exactness / completeness halves) — bencode writer framing per type and sorted keys; reader cursor arithmetic per tag, terminator loops, handlers always re-raise as `DecodeError`; datagram dispatch by class; no memoised method of a value class reads a field its equality ignores."
+TECHNIQUE = "static analysis: exception-escape (may-raise with typed taint, handler class hierarchy), reader/writer table agreement, who-may-call; exact fact-set comparison of the tests dominating each effect and refusal (effect / refusal tables), fall-through path queries"
 NOT_DECIDED = ("agreement with an independent bencode implementation on concrete messages and lossless round trip of every message "
                "value (runtime data); a datagram that decodes to a well-typed request with semantically odd arguments is handled by "
                "the request try/except, which is checked only for completeness of its handlers")
